@@ -60,7 +60,8 @@ def tree_family(lv: Leaves, deep: bool = False) -> list:
     for i, j, k in triples:
         for cls in ("Mul", "Add", "Min", "Max"):
             add(f"{cls}({leaves[i][0]}, {leaves[j][0]}, {leaves[k][0]})", Node(cls, [leaves[i][1], leaves[j][1], leaves[k][1]]))
-    exps = [("2", 2), ("-1", -1), ("1/2", half), ("2.0", float_num(2)), ("c", c), ("r", r), ("z", z), ("a/b", ratio), ("0", 0)]
+    exps = [("2", 2), ("-1", -1), ("1/2", half), ("2.0", float_num(2)), ("0.1", float_num(Fraction(1, 10))), ("1.6667", float_num(Fraction(16667, 10000))),
+            ("c", c), ("r", r), ("z", z), ("a/b", ratio), ("0", 0)]
     for (nb, tb), (ne, te) in itertools.product([("a", a), ("q", q), ("2", 2), ("z", z), ("a*c", Node("Mul", [a, c])), ("a/b", ratio), ("f(t)", f), ("p[1]", p1)], exps):
         add(f"Pow({nb}, {ne})", Node("Pow", [tb, te]))
     for nm, tr in leaves + [("a+b", Node("Add", [a, b])), ("a+c", Node("Add", [a, c]))]:
